@@ -222,31 +222,44 @@ def Store.prevMismatch (s : Store) (m : Manifest) : Bool :=
   | none => true
   | some p => decide (p.m.a.term ≠ m.prevTerm ∨ p.m.digest ≠ m.prevDigest)
 
-/-- `appendLeaderExactLocked` (ExpectedBaseOffset = manifest.BaseOffset at every caller) -/
-def Store.appendExact (s : Store) (m : Manifest) (cs : List Nat) : Store × SOut :=
-  if !m.validFor m.base cs.length then (s, .notWritten) else
+/-- the exact-replay branch of `appendLeaderExactLocked`: command and last offset both index the
+    very same manifest, the log already covers it, and every entry identity is the persisted one -/
+def Store.isExactReplay (s : Store) (m : Manifest) (es : List Ident) : Bool :=
+  match s.byCmd m.cmd, s.byLast m.last with
+  | some pc, some pl =>
+    decide (pc.m = m) && decide (pl.m = m) && !decide (s.leo < m.last) &&
+      es.all (fun e => s.entryAt e.index == some e)
+  | _, _ => false
+
+/-- what `appendLeaderExactLocked` decides before touching anything -/
+inductive ADec where
+  | notWritten | conflict (needFrom : Nat) | already | append (es : List Ident)
+deriving DecidableEq, Repr, Inhabited
+
+/-- the guards of `appendLeaderExactLocked`, in source order (ExpectedBaseOffset =
+    manifest.BaseOffset at every caller) -/
+def Store.appendDecision (s : Store) (m : Manifest) (cs : List Nat) : ADec :=
+  if !m.validFor m.base cs.length then .notWritten else
   match deriveEntries m cs with
-  | none => (s, .notWritten)
+  | none => .notWritten
   | some es =>
-    if (lastIdent es).digest ≠ m.digest then (s, .conflict 0) else
-    let leo := s.leo
-    if m.base > leo then (s, .conflict (leo + 1)) else
-    if m.base > 0 ∧ s.prevMismatch m then (s, .conflict 0) else
-    let bc := s.byCmd m.cmd
-    let bl := s.byLast m.last
-    if bc.isSome ∨ bl.isSome then
-      match bc, bl with
-      | some pc, some pl =>
-        if pc.m ≠ m ∨ pl.m ≠ m ∨ leo < m.last then (s, .conflict 0)
-        else if es.all (fun e => s.entryAt e.index == some e) then (s, .already)
-        else (s, .conflict 0)
-      | _, _ => (s, .conflict 0)
-    else if es.any (fun e => (s.entryAt e.index).isSome) then (s, .conflict 0)
-    else
-      let last := m.base + cs.length
-      if leo < m.base ∨ (leo > m.base ∧ leo < last) then (s, .conflict 0)
-      else if leo ≥ last then (s, .conflict 0)
-      else ({ s with props := ⟨m, cs, es⟩ :: s.props }, .durable)
+    if (lastIdent es).digest ≠ m.digest then .conflict 0
+    else if m.base > s.leo then .conflict (s.leo + 1)
+    else if m.base > 0 ∧ s.prevMismatch m then .conflict 0
+    else if (s.byCmd m.cmd).isSome ∨ (s.byLast m.last).isSome then
+      (if s.isExactReplay m es then .already else .conflict 0)
+    else if es.any (fun e => (s.entryAt e.index).isSome) then .conflict 0
+    else if s.leo < m.base ∨ (s.leo > m.base ∧ s.leo < m.base + cs.length) then .conflict 0
+    else if s.leo ≥ m.base + cs.length then .conflict 0
+    else .append es
+
+/-- `appendLeaderExactLocked` -/
+def Store.appendExact (s : Store) (m : Manifest) (cs : List Nat) : Store × SOut :=
+  match s.appendDecision m cs with
+  | .notWritten => (s, .notWritten)
+  | .conflict nf => (s, .conflict nf)
+  | .already => (s, .already)
+  | .append es => ({ s with props := ⟨m, cs, es⟩ :: s.props }, .durable)
 
 /-- `validMutation` (store_adapter.go) -/
 def validMutation (m : Manifest) (cs : List Nat) (committed : Nat) : Bool :=
